@@ -61,9 +61,35 @@ def run_check(prop, tier, seed, repo, jobfilter=None, procs=None):
     if jobfilter:
         specs = [s for s in specs if jobfilter in s[1]]
     results = runner.run_jobs(specs, mode="prove", procs=procs, repo=repo) if specs else []
+    # an obligation the solvers left `unknown` is not a verdict: the job is run again with every solver limit
+    # quadrupled (and nothing else competing for its core); what is still unknown after that is reported as
+    # undecided, never as a violation
+    retried = []
+    for i, r in enumerate(results):
+        if not r.get("synthetic") and any(ob["status"] == "unknown" for ob in r["obligations"]):
+            env_old = {k: os.environ.get(k) for k in ("PYVC_SOLVER_SCALE", "PYVC_NO_CACHE")}
+            os.environ["PYVC_SOLVER_SCALE"], os.environ["PYVC_NO_CACHE"] = "4", "1"
+            try:
+                # a fresh interpreter: the scale is read when pyvc.interp is imported
+                code = ("import sys, json; sys.path.insert(0, %r); sys.setrecursionlimit(20000); from pyvc import runner; "
+                        "print('RESULT ' + json.dumps(runner.run_jobs([%r], mode='prove', procs=1, repo=%r)[0], default=str))" % (VERIF, list(specs[i]), repo))
+                p = subprocess.run([sys.executable, "-c", code], capture_output=True, text=True, timeout=7200, env=dict(os.environ))
+                line = [l for l in p.stdout.splitlines() if l.startswith("RESULT ")]
+                if line:
+                    results[i] = json.loads(line[-1][7:])
+                    retried.append(r["job"])
+            except Exception:
+                pass
+            finally:
+                for k, v in env_old.items():
+                    if v is None:
+                        os.environ.pop(k, None)
+                    else:
+                        os.environ[k] = v
     for extra in cfg.get("extra", []):
         results.extend(extra(repo, tier))
     known = load_known()
+    undecided_obs = []
     crashes = [r for r in results if r.get("crash")]
     total = discharged = 0
     violations = []      # (job result, obligation)
@@ -107,6 +133,9 @@ def run_check(prop, tier, seed, repo, jobfilter=None, procs=None):
             if ob["status"] == "discharged":
                 discharged += 1
                 by_backend["z3" if ob.get("count") else "syntactic"] += 1
+                continue
+            if ob["status"] == "unknown":
+                undecided_obs.append({"job": r["job"], "obligation": ob["name"], "detail": (ob.get("detail") or "")[:300]})
                 continue
             kf = match_known(known, prop, r["job"], ob["name"], ob.get("detail"))
             if kf:
@@ -177,6 +206,8 @@ def run_check(prop, tier, seed, repo, jobfilter=None, procs=None):
             "known_findings_hit": [kf["what"] for _, _, kf in known_hits],
             "bounded_parts": bounded_parts + cfg.get("bounded_note", []) + bounded_runs,
             "undecided_jobs": [{"job": r["job"], "reason": r["undecided"]} for r in undecided],
+            "undecided_obligations_solver_unknown": undecided_obs,
+            "jobs_rerun_with_larger_solver_limits": retried,
             "repolls_after_exhaustion": repolls,
             "paths_truncated_by_mismatch_reported_under_other_property": truncated,
             "canaries": canary_report,
@@ -198,6 +229,8 @@ def run_check(prop, tier, seed, repo, jobfilter=None, procs=None):
           f"solver={solver_s:.1f}s wall={wall}s undecided_jobs={len(undecided)} known={len(known_hits)}")
     for r in undecided:
         print(f"  bounded-only: {r['job']}: {r['undecided']}")
+    for u in undecided_obs:
+        print(f"  undecided (solvers answered unknown, also with 4x limits): {u['obligation']}")
     for l in out_lines:
         print(l)
     if errors:
